@@ -100,7 +100,7 @@ struct H {
 
     static rc::Gen<Case> gen() {
         using namespace rc;
-        auto d = gen::map(gen::tuple(numgen::double_gen(), pbt::pick<int>({1, 1, 2, 4}), pbt::pick<int>({1, 1, 1, 3})),
+        auto d = gen::map(gen::tuple(numgen::double_gen(), pbt::pick<int>({1, 1, 2, 4, 3}), pbt::pick<int>({1, 1, 1, 3})),
                           [](std::tuple<numgen::Real, int, int> t) {
                               Case c;
                               c.kind   = 0;
@@ -110,7 +110,7 @@ struct H {
                               c.cycles = std::get<2>(t);
                               return c;
                           });
-        auto f = gen::map(gen::tuple(numgen::float_gen(), pbt::pick<int>({1, 2, 4})), [](std::tuple<numgen::Real, int> t) {
+        auto f = gen::map(gen::tuple(numgen::float_gen(), pbt::pick<int>({1, 2, 4, 3})), [](std::tuple<numgen::Real, int> t) {
             Case c;
             c.kind  = 1;
             c.bits  = std::get<0>(t).bits;
@@ -125,7 +125,7 @@ struct H {
     static bool from_fuzz(const uint8_t *d, size_t n, Case &c) {
         pbt::FuzzBytes f(d, n);
         uint8_t        b0 = f.sel();
-        static const int w[] = {1, 2, 4, 1};
+        static const int w[] = {1, 2, 4, 3};
         c.width  = w[b0 & 3];
         c.cycles = (b0 & 4) ? 3 : 1;
         c.kind   = (b0 & 8) ? 1 : 0;
@@ -190,6 +190,7 @@ struct H {
         switch (c.width) {
             case 1: run_width<char>(c, ctx); break;
             case 2: run_width<char16_t>(c, ctx); break;
+            case 3: run_width<wchar_t>(c, ctx); break;
             default: run_width<char32_t>(c, ctx); break;
         }
     }
